@@ -844,6 +844,11 @@ def _mapper_configured_hooks(ctx, m):
                 fn = nf[c.args[2].id]
                 if not any(fn is x[1] for x in out):
                     out.append((f"{f.key}.{fn.name}", fn, f))
+        for fn in nf.values():          # decorator form: @event.listens_for(Mapper, "mapper_configured")
+            for d in fn.decorator_list:
+                if isinstance(d, ast.Call) and call_name(d) == "event.listens_for" and len(d.args) >= 2 \
+                        and const_str(d.args[1]) == "mapper_configured" and not any(fn is x[1] for x in out):
+                    out.append((f"{f.key}.{fn.name}", fn, f))
     return out
 
 
@@ -1596,3 +1601,8 @@ R.mutant("composite-listener-gets-flag-on-the-composite-columns", MUT, sub(
     "                seen = prop.columns[0].info\n                if seen.get(\"_ext_mutable_composite\"):\n                    continue\n"
     "                seen[\"_ext_mutable_composite\"] = True\n"
     "                prop.composite_class._listen_on_attribute(\n                    getattr(class_, prop.key), False, class_\n                )\n"), "C49-R7")
+R.mutant("benign-as-mutable-hook-registered-by-decorator", MUT, chain(
+    sub("        def listen_for_type(\n            mapper: Mapper[_T],\n            class_: Union[DeclarativeAttributeIntercept, type],\n        ) -> None:\n",
+        "        @event.listens_for(Mapper, \"mapper_configured\")\n        def listen_for_type(\n            mapper: Mapper[_T],\n"
+        "            class_: Union[DeclarativeAttributeIntercept, type],\n        ) -> None:\n"),
+    sub("        event.listen(Mapper, \"mapper_configured\", listen_for_type)\n\n        return sqltype\n", "        return sqltype\n")), None)
